@@ -68,6 +68,17 @@ pub fn execute_memoized_function<Db: Database>(
         db.get_storage().top_level_calls.push(derived_node_id);
     }
 
+    execute_memoized_function_impl(db, derived_node_id, inner_fn)
+}
+
+/// Everything [`execute_memoized_function`] does, except recording a top-level call. Verifying
+/// the dependencies of a top-level call happens with an empty dependency stack, but those
+/// dependencies were not called by the user, and must not take up space in the LRU cache.
+fn execute_memoized_function_impl<Db: Database>(
+    db: &Db,
+    derived_node_id: DerivedNodeId,
+    inner_fn: InnerFn<Db>,
+) -> DidRecalculate {
     let (did_recalculate, time_updated) = if let Some((derived_node, revision)) = db
         .get_storage()
         .internal
@@ -241,7 +252,7 @@ fn derived_node_changed_since<Db: Database>(
     } else {
         return true;
     };
-    let did_recalculate = execute_memoized_function(db, derived_node_id, inner_fn);
+    let did_recalculate = execute_memoized_function_impl(db, derived_node_id, inner_fn);
     matches!(
         did_recalculate,
         DidRecalculate::Recalculated | DidRecalculate::Error
